@@ -869,6 +869,9 @@ func (x *vConnRun) unexpected() {
 			if f.kind == 'L' && ti != nil && ti.owner != c.idx {
 				x.routed(f.tok, c.idx)
 			}
+			// C03: one terminal reply per request — a frame that answers no outstanding request is a reply too many (e.g. a late EXPRIED
+			// notice taken for the answer of the connection's next command)
+			x.report("C03:reply-answers-nothing-outstanding", fmt.Sprintf("connection %d received a frame (token %d, result %d) that answers no request it has outstanding", c.idx, f.tok, f.result))
 			x.report("C18:unexpected-frame", fmt.Sprintf("connection %d received a frame (token %d, result %d) that answers nothing outstanding", c.idx, f.tok, f.result))
 		}
 	}
